@@ -64,7 +64,7 @@ CLAIMS = {
         technique=K,
         text="Bit-precise f32: for every fraction in [0,1], N <= 65535, c in {1,2}, 2..=10 progress glyphs the real format_bar yields floor(N/c) cells, "
              "floor(fraction*cells) filled (one-ulp rounding at exact integers tolerated and covered), at most one partial cell exactly when neither empty nor "
-             "full, partial index within the configured set; filled == cells <=> pos >= len for len <= 2^24; monotone in the position; the rendered text is "
+             "full, partial index within the configured set (plus a small instance, N <= 16, whose counter-examples always extract and replay); filled == cells <=> pos >= len for len <= 2^24; monotone in the position; the rendered text is "
              "filled glyphs, partial glyph, background glyphs (N <= 8).",
         note="wide_bar end-to-end (format_state + format! + str::replace) exceeds CBMC's memory; it is claimed only through its two ingredients (cell count "
              "of format_bar for the remaining columns; see DESIGN 4/C13). Monotonicity over the full u64 range is thorough-tier (stage-wise).",
@@ -179,11 +179,12 @@ CLAIMS = {
              "/ BinaryBytes delegate to the unit-prefix crate and are checked for the unit boundary arithmetic only in the thorough tier.",
         ref="4/C15"),
     "C16": dict(
-        technique=K,
+        technique=K + "; totality of the tab-width arithmetic in the expansion functions by MIR overflow-check queries (z3 + cvc5) with native replay",
         text="Inductive step from an ARBITRARY consistent bar state (current tab width w0 in 0..=9; message, prefix and template literals holding tabs and "
              "carrying w0): after set_tab_width(w), set_style(style carrying ANY width of its own), set_message / set_prefix, finish_with_message every "
              "tab-carrying string of the bar and the style carry the bar's current width (histories of any length follow). TabExpandedString::expanded() "
-             "replaces every tab by the current width, also after set_tab_width (cache invalidated); TabRewriter (custom keys) replaces tabs by the width given.",
+             "replaces every tab by the current width, also after set_tab_width (cache invalidated); TabRewriter (custom keys) replaces tabs by the width given. "
+             "Engine M: no overflow-checked operation over a tab-width input in expanded / set_tab_width / TabRewriter::write_str can overflow for widths 0..=64.",
         note="Texts are concrete per harness (string replacement on symbolic content allocates strings of symbolic size); that format_state renders message / "
              "prefix / literals through expanded() and custom keys through TabRewriter(self.tab_width) is shown by the C11 key-dispatch analysis and by reading.",
         ref="4/C16"),
